@@ -46,7 +46,7 @@ def run(ctx):
                      "ibops": rnd.randint(0, 4), "restart": rnd.random() < 0.8, "stalems": 3000,
                      "execms": rnd.choice([0, 5, 20]), "deadlinefactor": 100})
     # targeted schedules: instances vanish under Running containers; every second Destroy fails
-    scns.append({"id": 50, "n": 8, "prios": 2, "rseed": rnd.randrange(1 << 30), "faults": False, "breakfirst": 3,
+    scns.append({"id": 50, "n": 12, "prios": 2, "rseed": rnd.randrange(1 << 30), "faults": False, "breakfirst": 6,
                  "stalems": 3000, "deadlinefactor": 100})
     scns.append({"id": 51, "n": 20, "prios": 3, "rseed": rnd.randrange(1 << 30), "faults": False, "errdestroy": 0.5,
                  "stalems": 3000, "deadlinefactor": 100})
